@@ -3,8 +3,9 @@
 (* (C01, C11; loop part of C13).  One action per code section of a generic    *)
 (* off-policy loop: choose action (Explore | PolicyAct), EnvStep, Store,      *)
 (* Learn, Advance (reset or carry the successor), Return.  The environment is *)
-(* nondeterministic: any episode ends after 1..MaxEpLen steps by termination  *)
-(* or truncation.  Observations are tags <<ep, t>> (device D1).               *)
+(* nondeterministic: any episode ends after 1..MaxEpLen steps by termination, *)
+(* by truncation, or by a step that returns BOTH flags at once (step kind     *)
+(* "both").  Observations are tags <<ep, t>> (device D1).                     *)
 (* The routine's value estimate is abstracted to `row`, the action values it   *)
 (* holds at the observation the environment returned last (constant Rows):    *)
 (* PolicyAct picks a maximiser of the row as it is NOW; Learn may change it.  *)
@@ -91,7 +92,7 @@ EnvStep(outcome) ==
   /\ pc = "env"
   /\ ("step_after_end" \in DEV \/ CanStep(phase))
   /\ LET t1 == t + 1
-         r == [obs |-> <<ep, t1>>, r |-> 16 * ep + t1, term |-> outcome = "term", trunc |-> outcome = "trunc"]
+         r == [obs |-> <<ep, t1>>, r |-> 16 * ep + t1, term |-> outcome \in {"term", "both"}, trunc |-> outcome \in {"trunc", "both"}]
      IN /\ (outcome = "cont" => t1 < MaxEpLen)
         /\ t' = t1 /\ res' = r /\ last' = r.obs
         /\ phase' = IF outcome = "cont" THEN phase ELSE "ended"
@@ -102,7 +103,9 @@ EnvStep(outcome) ==
 
 Store == /\ pc = "store"
          /\ stored' = Append(stored, [obs |-> cur, act |-> pend, r |-> res.r, next |-> res.obs,
-                                      term |-> IF "store_done_flag" \in DEV THEN (res.term \/ res.trunc) ELSE res.term])
+                                      (* deviations: the done flag is kept / a step with both flags is kept as "not terminated" *)
+                                      term |-> IF "store_done_flag" \in DEV THEN (res.term \/ res.trunc)
+                                               ELSE IF "store_term_unless_trunc" \in DEV THEN (res.term /\ ~res.trunc) ELSE res.term])
          /\ pc' = "learn"
          (* the bootstrap choice at the successor, on the estimate as it is before the update (only tracked when
             the deviation that re-uses it is enabled) *)
@@ -119,9 +122,11 @@ Learn == /\ pc = "learn"
 (* end of the loop body: reset after an ended episode, else carry the successor *)
 Advance ==
   /\ pc = "advance"
-  /\ IF res.term \/ res.trunc
-     THEN /\ epsDone' = epsDone + 1
-          /\ IF ~MayContinue(epsDone + 1)
+  /\ IF CEpisodeEnds(res.term, res.trunc)
+     THEN (* deviation: the two flags are counted separately, a step with both flags ends "two" episodes *)
+          /\ epsDone' = epsDone + (IF "count_flags_separately" \in DEV THEN (IF res.term THEN 1 ELSE 0) + (IF res.trunc THEN 1 ELSE 0)
+                                    ELSE CEpisodesEnded(res.term, res.trunc))
+          /\ IF ~MayContinue(epsDone')
              THEN /\ pc' = "return"
                   (* deviation: break before the step counter is advanced *)
                   /\ step' = IF "break_before_count" \in DEV THEN step ELSE step + 1
@@ -145,7 +150,7 @@ Return == /\ (pc = "return" \/ (pc = "act" /\ Done))
           /\ pc' = "done"
           /\ UNCHANGED <<phase, ep, t, last, cur, cond, pend, res, stored, produced, step, executed, epsDone, updates, row, choice, carried>>
 
-Next == Reset \/ Explore \/ PolicyAct \/ ActOnStaleChoice \/ (\E o \in {"cont", "term", "trunc"} : EnvStep(o))
+Next == Reset \/ Explore \/ PolicyAct \/ ActOnStaleChoice \/ (\E o \in {"cont", "term", "trunc", "both"} : EnvStep(o))
         \/ Store \/ Learn \/ Advance \/ Return
 Spec == Init /\ [][Next]_vars
 ----------------------------------------------------------------------------
@@ -184,7 +189,12 @@ PreparedBatch == IF "misaligned_batch" \in DEV
 LearnRowsFaithful ==
   LET env == {produced[k] : k \in 1..Len(stored)}
   IN \A brow \in PreparedBatch : CRowVerdict(brow, {"act", "r", "next", "term"}, env) = "ok"
-StoredFaithful == RowsFaithful /\ RecordFaithful /\ LearnRowsFaithful
+(* bootstrapping: the learner bootstraps through a kept transition iff the environment did not report termination for
+   that step - in particular never through a step that returned both flags *)
+BootstrapFaithful == \A k \in 1..Len(stored) : CBootstrapFaithful(stored[k], produced[k].term)
+StoredFaithful == RowsFaithful /\ RecordFaithful /\ LearnRowsFaithful /\ BootstrapFaithful
+(* every ended episode is counted once, whatever flags its last step carried *)
+EpisodesCountedOnce == epsDone <= ep + 1
 FirstOfEpisodeFromReset == \A k \in 1..Len(stored) : stored[k].next[2] = 1 => stored[k].obs = <<stored[k].next[1], 0>>
 CondFaithful == (pc = "env" /\ pend = "policy") => CondMatches(cond, last)
 (* C11 *)
